@@ -47,15 +47,26 @@ Qed.
 Lemma two64_val : two64 = 2 ^ 64. Proof. reflexivity. Qed.
 
 (* ---------- ValidateSignatureValues ---------- *)
+Lemma validate_sig_bool v r s hs :
+  validate_sig v r s hs =
+  ((v =? 0) || (v =? 1)) && negb (r <? 1) && negb (s <? 1) && negb (hs && (secp_half_n <? s)) &&
+  (r <? secp_n) && (s <? secp_n).
+Proof.
+  unfold validate_sig.
+  destruct (v =? 0), (v =? 1), (r <? 1), (s <? 1), hs, (secp_half_n <? s), (r <? secp_n), (s <? secp_n); reflexivity.
+Qed.
+
 Theorem validate_spec v r s hs :
   validate_sig v r s hs = true <->
   (v = 0 \/ v = 1) /\ 1 <= r < secp_n /\ 1 <= s < secp_n /\ (hs = true -> s <= secp_half_n).
 Proof.
-  unfold validate_sig. generalize secp_n secp_half_n. intros n hn.
-  destruct hs; destruct (N.eqb_spec v 0), (N.eqb_spec v 1), (N.ltb_spec r 1), (N.ltb_spec s 1),
-    (N.ltb_spec hn s), (N.ltb_spec r n), (N.ltb_spec s n); cbn;
-  (split; [intros E; try discriminate E; repeat split; intros; try lia; try discriminate
-          | intros (Hv & Hr & Hs & Hh); try reflexivity; try lia; try (specialize (Hh eq_refl); lia)]).
+  rewrite validate_sig_bool. generalize secp_n secp_half_n. intros n hn.
+  rewrite !andb_true_iff, orb_true_iff, !negb_true_iff, andb_false_iff, !N.eqb_eq, !N.ltb_lt, !N.ltb_ge.
+  split.
+  - intros (((((Hv & Hr) & Hs) & Hh) & Hrn) & Hsn). repeat split; try assumption.
+    intros ->. destruct Hh as [Hh|Hh]; [discriminate|exact Hh].
+  - intros (Hv & (Hr & Hrn) & (Hs & Hsn) & Hh). repeat split; try assumption.
+    destruct hs; [right; now apply Hh|now left].
 Qed.
 
 (* ---------- V arithmetic ---------- *)
@@ -97,6 +108,16 @@ Proof.
       destruct (N.eqb_spec V 27), (N.eqb_spec V 28); try lia. cbn [orb] in Hc.
       unfold two64 in *. lia.
   - apply bitlen_gt in L. change (2 ^ 64) with 18446744073709551616 in L. lia.
+Qed.
+
+(* byte(Vb.Uint64() - 27) for |Vb| < 256, by enumeration (small proof term) *)
+Definition v_narrow (x : N) : N := ((x mod two64 + two64 - 27) mod two64) mod 256.
+Lemma v_narrow_table : forallb (fun k => v_narrow (N.of_nat k) =? (if 27 <=? N.of_nat k then N.of_nat k - 27 else N.of_nat k + 229)) (seq 0 256) = true.
+Proof. vm_compute. reflexivity. Qed.
+Lemma v_narrow_spec x : x < 256 -> v_narrow x = if 27 <=? x then x - 27 else x + 229.
+Proof.
+  intros Hx. pose proof (proj1 (forallb_forall _ _) v_narrow_table (N.to_nat x)) as T.
+  cbv beta in T. rewrite N2Nat.id in T. apply N.eqb_eq, T. apply in_seq. lia.
 Qed.
 
 Lemma secp_n_odd : secp_n = 2 * secp_half_n + 1.
@@ -180,7 +201,8 @@ Section Prims.
     destruct (validate_sig v r s hs) eqn:V; cbn [negb]; [|discriminate].
     intros R. exists v. pose proof (proj1 (validate_spec _ _ _ _) V) as (Hv & _).
     assert (Hx : x = 27 + v).
-    { unfold v, two64 in Hv |- *. clearbody x. lia. }
+    { fold (v_narrow x) in v. unfold v in Hv |- *. rewrite (v_narrow_spec x L) in *.
+      destruct (N.leb_spec 27 x); lia. }
     repeat split; try assumption; try lia.
   Qed.
 
@@ -192,8 +214,8 @@ Section Prims.
     replace (Z.to_N (Z.abs (Z.of_N (27 + v)))) with (27 + v) by lia.
     destruct (N.ltb_spec 8 (bitlen (27 + v))) as [L|L].
     - apply bitlen_gt in L. change (2 ^ 8) with 256 in L. lia.
-    - replace (((27 + v) mod two64 + two64 - 27) mod two64 mod 256) with v by (unfold two64; lia).
-      now rewrite V.
+    - fold (v_narrow (27 + v)). rewrite (v_narrow_spec (27 + v)) by lia.
+      destruct (N.leb_spec 27 (27 + v)); [|lia]. replace (27 + v - 27) with v by lia. now rewrite V.
   Qed.
 
   (* the signer whose hash and S-rule EIP155Signer.Sender really applies *)
@@ -651,9 +673,11 @@ Proof.
        (lenN (encode (uint_item a)) + (lenN (encode (uint_item b)) + (lenN (encode (uint_item c)) + 0)))) two64) as [|G];
       [reflexivity|]. unfold two64 in G. lia. }
   split.
-  - destruct sg as [| |c]; cbn [sighash_item]; try apply Tail; cbn in Bs; try assumption; try (cbn; lia).
-    + rewrite fits_Lst, Ff. destruct (N.ltb_spec (lenN (encode_list (sig_fields t))) two64) as [|G]; [reflexivity|unfold two64 in G; lia].
-    + rewrite fits_Lst, Ff. destruct (N.ltb_spec (lenN (encode_list (sig_fields t))) two64) as [|G]; [reflexivity|unfold two64 in G; lia].
+  - assert (Z256 : 0 < 2 ^ 256) by (apply N.neq_0_lt_0, N.pow_nonzero; discriminate).
+    assert (Plain : fits (Lst (sig_fields t)) = true).
+    { rewrite fits_Lst, Ff. destruct (N.ltb_spec (lenN (encode_list (sig_fields t))) two64) as [|G]; [reflexivity|unfold two64 in G; lia]. }
+    destruct sg as [| |c]; cbn [sighash_item]; [exact Plain|exact Plain|].
+    exact (Tail c 0 0 Bs Z256 Z256).
   - unfold tx_item. now apply Tail.
 Qed.
 
@@ -835,3 +859,83 @@ Proof.
   apply item_to_uint_inv in E1, E2, E3, E5, E7, E8, E9. apply item_to_addr_inv in E4.
   destruct d as [ds|]; [|discriminate]. cbn in E6. injection E6 as <-. now subst.
 Qed.
+
+(* ---------- 13. the sender cache under sequences and interleavings of callers ---------- *)
+Section CacheSeq.
+  Variable H : bytes -> bytes.
+  Variable ecrecover : bytes -> bytes -> option bytes.
+  Notation sender_signer := (sender_signer H ecrecover).
+
+  (* any number of Sender calls with any signers, in any order, on one object: every answer is what
+     the signer passed computes from the fields; the cache stays valid *)
+  Theorem sender_seq_sound : forall sgs t c,
+    cache_valid H ecrecover t c ->
+    fst (sender_seq H ecrecover t c sgs) = map (fun sg => sender_signer sg t) sgs /\
+    cache_valid H ecrecover t (snd (sender_seq H ecrecover t c sgs)).
+  Proof.
+    induction sgs as [|sg rest IH]; intros t c V; [split; [reflexivity|exact V]|].
+    cbn [sender_seq map]. destruct (sender_cached H ecrecover sg t c) as [r c1] eqn:E.
+    destruct (cache_sound H ecrecover sg t c r c1 V E) as [-> V1].
+    destruct (sender_seq H ecrecover t c1 rest) as [rs c2] eqn:E2.
+    specialize (IH t c1 V1). rewrite E2 in IH. cbn [fst snd] in *. destruct IH as [-> V2]. split; [reflexivity|exact V2].
+  Qed.
+
+  (* concurrent callers: Load and Store are separate atomic events.  A hit is sound for a valid cache;
+     storing a pair some caller computed keeps the cache valid - so under every interleaving of the
+     Loads and Stores of any set of callers every answer (hit or computed) is the signer's own *)
+  Theorem cache_hit_sound t c sg a :
+    cache_valid H ecrecover t c -> cache_load c sg = Some a -> sender_signer sg t = Ok a.
+  Proof.
+    unfold cache_load, cache_valid. destruct c as [[sg' a']|]; [|discriminate].
+    destruct (signer_equal sg' sg) eqn:Eq; [|discriminate]. apply signer_equal_eq in Eq. subst.
+    intros V E. injection E as <-. exact V.
+  Qed.
+
+  Theorem interleaved_stores_valid t : forall (stores : list (signer * bytes)) c,
+    cache_valid H ecrecover t c ->
+    Forall (fun p => sender_signer (fst p) t = Ok (snd p)) stores ->
+    cache_valid H ecrecover t (fold_left cache_store stores c).
+  Proof.
+    induction stores as [|[sg a] rest IH]; intros c V F; [exact V|].
+    inversion F as [|? ? Hp Fr]; subst. cbn [fold_left]. apply IH; [|exact Fr]. exact Hp.
+  Qed.
+
+  (* WithSignature: the copy's cache is empty, hence valid for the NEW fields; every later answer on the
+     copy is computed from the copy's own signature, whatever the original had cached *)
+  Theorem with_signature_fresh_cache sg o sig t' c' sgs :
+    with_signature_obj sg o sig = Ok (t', c') ->
+    c' = None /\ fst (sender_seq H ecrecover t' c' sgs) = map (fun s => sender_signer s t') sgs.
+  Proof.
+    unfold with_signature_obj. destruct (with_signature sg (fst o) sig) as [t1| |]; try discriminate.
+    intros E. injection E as <- <-. split; [reflexivity|]. apply sender_seq_sound. exact I.
+  Qed.
+
+  (* ---------- 14. the two entrances: RLP (no signature checks) and JSON (range check, no low-S check) ---------- *)
+  Inductive entrance := EntRLP (b : bytes) | EntJSON (j : tx_json).
+  Definition enter (e : entrance) : option tx :=
+    match e with EntRLP b => decode_tx b | EntJSON j => tx_of_json j end.
+
+  (* whatever entrance a transaction came through, an attributed sender is the address recovered from a
+     signature in range over exactly the hash of the chain domain that applies (and low-S where Homestead
+     rules apply): nothing an entrance lets through can be attributed otherwise *)
+  Theorem entrance_sender_sound e t sg a :
+    enter e = Some t -> sender_signer sg t = Ok a ->
+    exists v, v < 2 /\ t_v t = v_of (eff_signer sg t) v /\
+      1 <= t_r t < secp_n /\ 1 <= t_s t < secp_n /\
+      (enforces_low_s (eff_signer sg t) = true -> t_s t <= secp_half_n) /\
+      recover_addr H ecrecover (sighash H (eff_signer sg t) t) (t_r t) (t_s t) v = Ok a.
+  Proof.
+    intros _ S. destruct (sender_ok_inv H ecrecover sg t a S) as (v & Hv & Ev & Val & R).
+    apply validate_spec in Val. destruct Val as (_ & Hr & Hs & Hl). exists v. repeat split; try assumption; try lia.
+  Qed.
+
+  (* what the JSON entrance refuses and the RLP entrance admits: out-of-range R, S and V bytes other
+     than 27/28 (or 35+2c+{0,1}); neither refuses S > N/2 *)
+  Theorem json_entrance_admits j t :
+    enter (EntJSON j) = Some t -> validate_sig (json_v_byte (t_v t)) (t_r t) (t_s t) false = true.
+  Proof. cbn [enter]. intros E. apply json_accepted_fields in E. unfold json_accepts in E. tauto. Qed.
+
+  Theorem rlp_entrance_admits_everything t :
+    tx_rlp_wf t -> enter (EntRLP (encode_tx t)) = Some t.
+  Proof. apply decode_encode_tx. Qed.
+End CacheSeq.
